@@ -155,42 +155,58 @@ def cond_text(fn, cond, truth):
 
 class TextGate(Monitor):
     """Must-pass-through gate for MIR: alternatives are (substring-tuple, want) tested against the
-    inlined text of branch conditions.  m: 0 = not established, 1 = established."""
+    inlined text of branch conditions; for `match` switches the text is `<scrutinee>=<Variant>` and
+    want is True.  Statement points in est_pts establish too.  m: 0/1."""
 
-    def __init__(self, fn, accept_pts, alts, reset_pts=()):
+    def __init__(self, fn, accept_pts, alts, reset_pts=(), est_pts=(), check_exit=False):
         self.fn, self.accept, self.alts, self.reset = fn, set(accept_pts), alts, set(reset_pts)
+        self.est, self.check_exit = set(est_pts), check_exit
 
     def elem(self, m, pt, e, s):
         if pt in self.accept and not m:
             return Viol("reached without the required test", pt)
+        if pt in self.est:
+            return 1
         if pt in self.reset:
             return 0
         return m
 
     def edge(self, m, bid, edge, cond, truth, s):
-        if cond is not None and truth is not None:
+        if cond is None:
+            return m
+        if truth is not None:
             txt, t = cond_text(self.fn, cond, truth)
-            for needles, want in self.alts:
-                if t == want and all(n in txt for n in needles):
-                    return 1
+        elif isinstance(edge.lab, dict) and (edge.lab.get("name") or edge.lab.get("case") or edge.lab.get("default")):
+            txt, t = cond_text(self.fn, cond, True)
+            txt, t = "%s=%s" % (txt, edge.lab.get("name") or ("default" if edge.lab.get("default") else edge.lab.get("v"))), True
+        else:
+            return m
+        for needles, want in self.alts:
+            if t == want and all(n in txt for n in needles):
+                return 1
         return m
 
+    def exit(self, m, bid, s):
+        if self.check_exit and not m:
+            return Viol("function exit reached without the required statement/test")
+        return None
 
-def text_gate(ctx, rule, fn, accept_pts, preds, accept_desc="accept"):
+
+def text_gate(ctx, rule, fn, accept_pts, preds, accept_desc="accept", est_pts=(), at_exit=False):
     """preds: list of (label, [((needle, …), want), …])."""
-    if not accept_pts:
+    if not accept_pts and not at_exit:
         ctx.bad(rule, "%s:no-accept-point" % fn.name, "no %s point found in %s" % (accept_desc, fn.name))
         return
     for label, alts in preds:
-        s = Search(fn, TextGate(fn, accept_pts, alts), budget=2000000)
+        s = Search(fn, TextGate(fn, accept_pts, alts, est_pts=est_pts, check_exit=at_exit), budget=2000000)
         v = s.run(0)
         key = "%s:%s" % (fn.name.split("::")[-1], label)
         if v is None:
             ctx.ok(rule, key, "every path to %s (%d point(s)) passes `%s` (%d states)" % (accept_desc, len(accept_pts), label, s.states),
                    sample={"function": fn.name, "accept": [fn.loc(p) for p in sorted(accept_pts)][:3], "predicate": label})
         else:
-            ctx.bad(rule, key, "%s: a path reaches %s at %s without `%s`" % (fn.name, accept_desc, fn.loc(v.pt), label),
-                    {"function": fn.name, "site": fn.loc(v.pt), "path": s.render_path(v.path)[-10:]})
+            ctx.bad(rule, key, "%s: a path reaches %s at %s without `%s`" % (fn.name, accept_desc, fn.loc(v.pt) if v.pt else "exit", label),
+                    {"function": fn.name, "site": fn.loc(v.pt) if v.pt else "exit", "path": s.render_path(v.path)[-10:]})
 
 
 def const_ret_points(fn, value):
